@@ -31,7 +31,9 @@ TCall == /\ l < Len(Ev) /\ E.op = "call"
 TClear == /\ l < Len(Ev) /\ E.op = "clear" /\ Clear /\ Observed /\ Consume
 TDiscard == /\ l < Len(Ev) /\ E.op = "discard" /\ Discard(E.p, E.n) /\ Observed /\ Consume
 
-TNext == TCall \/ TClear \/ TDiscard
+TUnhashable == /\ l < Len(Ev) /\ E.op = "typeerror" /\ Unhashable(E.p, E.n) /\ ~E.inv /\ Observed /\ Consume
+
+TNext == TCall \/ TClear \/ TDiscard \/ TUnhashable
 Spec2 == TInit /\ [][TNext]_tvars
 
 Rejected == {t \in 1..NT : TLCGet(Reg(t)) < Len(Traces[t].ev)}
